@@ -16,6 +16,7 @@ RULE = ("BFS over histories: roots = numeric (flat and column-vector), symbolic 
         "with numbers rounded at 1e-12 and expressions by srepr) - the representation is part of the state because element access and roll-back depend on it; every transition is compared with a plain-list reference model and the invariant is "
         "evaluated in every state. non-trivial state = reached by at least one accepted or rejected mutation; plus constructor rejections, Dicke states "
         "for all n<=N,k<=n, bit-reversal on index vectors, save/load on reachable numeric states")
+RULE += " Round 6-7: nan / inf values; the free symbols the object reports are part of every compared state; block assignment through a 2-D key with a sympy Matrix; wavefunctions created from real float / int data under complex assignments."
 RULE += " Also: runs of 12/40 small same-direction assignments (drift bounded by the object's own tolerance), probabilities of still-symbolic states at a complex assignment, symbols with assumptions."
 ASSUMPTIONS = ["alphabet values keep |sum|a|^2 - 1| either < 1e-9 or > 1e-2: the library's own np.isclose tolerance edge is never probed",
                "amplitudes are observed through wf[i], len(wf), wf.amplitudes, free_symbols (public surface)"]
@@ -56,6 +57,12 @@ def mk_root(root):
         return Wavefunction(np.array(vals, dtype=complex)), list(map(complex, vals))
     if kind == "ncol":
         return Wavefunction(np.array(vals, dtype=complex).reshape(-1, 1)), list(map(complex, vals))
+    if kind == "nf":      # a REAL float array: the object must still hold complex amplitudes afterwards
+        return Wavefunction(np.array(vals, dtype=float)), list(map(complex, vals))
+    if kind == "nl":      # a plain list of Python floats / ints
+        return Wavefunction([float(v) if isinstance(v, float) else v for v in vals]), list(map(complex, vals))
+    if kind == "ni":      # an integer array
+        return Wavefunction(np.array(vals, dtype=int)), list(map(complex, vals))
     return Wavefunction(sympy.Matrix(vals)), [v if isinstance(v, sympy.Basic) else complex(v) for v in vals]
 
 
@@ -77,7 +84,11 @@ def entry(x):
 
 
 def snapshot(wf):
-    return [entry(wf[i]) for i in range(len(wf))]
+    """entries as read through wf[i], plus the free symbols the object reports (a cached report must follow the entries, also after a rejected write)"""
+    ent = [entry(wf[i]) for i in range(len(wf))]
+    fs = sorted(str(s_) for s_ in wf.free_symbols)
+    want = sorted({str(x) for i in range(len(wf)) for x in (wf[i].free_symbols if isinstance(wf[i], sympy.Basic) else ())})
+    return ent if fs == want else ent + ["free_symbols reported: %s, entries depend on: %s" % (fs, want)]
 
 
 def model_snapshot(vec):
@@ -123,6 +134,7 @@ def events_for(case):
         evs += [["setslice", [0, None, 2], [S2, S2]], ["setslice", [0, None, 2], [0.6, 0.6]]]
     evs.append(["flip"])
     if case["root"][0] in ("s", "sr"):
+        evs += [["setblock", [0, 2], ["c", 0.99]], ["setblock", [0, 2], ["c", 0.1]], ["setblock", [0, 2], [0.6, 0.8]]] + ([["setblock", [1, 3], [0.99, "c"]]] if n == 4 else [])
         for va in BIND_VALUES + [None]:
             for vb in BIND_VALUES[:3] + [None]:
                 m = {}
@@ -171,9 +183,16 @@ def step(case):
         return bad
     for ev in case["hist"]:
         before = snapshot(wf)
-        if ev[0] in ("set", "setslice"):
+        if ev[0] in ("set", "setslice", "setblock"):
             new = list(model)
-            if ev[0] == "set":
+            if ev[0] == "setblock":
+                # a block assignment through a 2-D key with a sympy Matrix value (what a sympy-backed store accepts): wf[a:b, 0] = Matrix([...])
+                a_, b_ = ev[1]
+                vals = [val(v) for v in ev[2]]
+                new[a_:b_] = vals
+                def act():
+                    wf[a_:b_, 0] = sympy.Matrix(vals)
+            elif ev[0] == "set":
                 new[ev[1]] = val(ev[2])
                 def act():
                     wf[ev[1]] = val(ev[2])
@@ -499,7 +518,7 @@ def nudge_case(case):
     return {"ok": True, "nt": True, "ops": k, "out": "rounds%d" % case["rounds"]}
 
 
-FUNCS = {"dicke_wide": dicke_case, "flip_history": flip_history_case, "wide": wide_case, "nudges": nudge_case, "histories": step, "constructor": ctor_case, "dicke": dicke_case, "flip": flip_case, "save_load": io_case}
+FUNCS = {"real_storage": step, "dicke_wide": dicke_case, "flip_history": flip_history_case, "wide": wide_case, "nudges": nudge_case, "histories": step, "constructor": ctor_case, "dicke": dicke_case, "flip": flip_case, "save_load": io_case}
 
 
 def run(run):
@@ -524,6 +543,14 @@ def run(run):
           for mv in ([[0, 3e-6]], [[0, -3e-6]], [[1, 2e-6], [0, 2e-6]], [[-1, [0, 3e-6]]], [[0, 3e-6], [1, -1e-6]], [[0, 8e-6]], [[0, 4e-7]]) for rounds in (12, 40)]
     secs = [Section("nudges", NG, nudge_case, desc="runs of 12 / 40 small same-direction assignments (each within tolerance of the state before it): the object stays normalised"),
             Section("constructor", C, ctor_case, desc="constructor accepts exactly the power-of-two, normalised (or not-yet-exceeding) vectors")]
+    # wavefunctions created from REAL data (float array, list of Python floats, integer array): every history of <= 2 assignments of complex values, single and slice
+    rs_cases = []
+    for root in (["nf", [0.6, 0.8]], ["nl", [0.6, 0.8]], ["nf", [0.6, 0.8, 0, 0]], ["nl", [0.6, 0.8, 0.0, 0.0]], ["ni", [1, 0]], ["ni", [0, 0, 1, 0]], ["nl", [0, 1]]):
+        n_ = len(root[1])
+        evs = [["set", i, v] for i in range(n_) for v in ([0, 0.8], [0, 1], [0, -0.6], 0.8, [0.6, 0], [0, 0.6])]
+        evs += [["setslice", [0, None, 1], [[0, 0.6], [0, 0.8]] + [0] * (n_ - 2)], ["setslice", [0, None, 1], ([0.5, [0, 0.5], -0.5, [0, -0.5]] if n_ == 4 else [[0, S2], S2])], ["setslice", [0, None, 1], [0.6, 0.8] + [[0, 1]] * (n_ - 2) if n_ == 4 else [[0, 1], [0, 1]]]]
+        rs_cases += [{"root": root, "hist": []}] + [{"root": root, "hist": [a]} for a in evs] + [{"root": root, "hist": [a, b]} for a in evs for b in evs]
+    secs.append(Section("real_storage", rs_cases, step, desc="wavefunctions created from real-valued data (float array / list of floats / integer array): every history of <= 2 complex-valued single and slice assignments"))
     N = 10 if thorough else 8
     D = [{"n": n, "k": k} for n in range(1, N + 1) for k in range(-1, n + 2)] + [{"n": 3, "k": 1.0}, {"n": 3, "k": 1.5}]
     secs.append(Section("dicke", D, dicke_case, desc="dicke_state(n,k) for all n<=%d, k in -1..n+1" % N))
